@@ -133,7 +133,9 @@ pub fn singleton_rows(
     let outs: Vec<String> = (0..n).map(|i| path_str(&dir.join(format!("single_{i}.out")))).collect();
     let outs2 = outs.clone();
     let delim = delim.to_string();
-    let r = sim(&Sched::fifo(), &IoSpec::off(), None, None, 1, STEPS_THOROUGH, move || {
+    // the reference run is sequential; its budget only has to be generous
+    let budget = STEPS_THOROUGH + 2_000 * n + 16 * inputs.iter().map(|b| b.len()).sum::<usize>();
+    let r = sim(&Sched::fifo(), &IoSpec::off(), None, None, 1, budget, move || {
         for (i, bytes) in inputs.into_iter().enumerate() {
             verif_rt::ctx::with(|c| c.stdin = Some(bytes));
             let mut com = composition::oligo::OligoComputer::new("-".into(), outs2[i].clone(), k);
